@@ -50,7 +50,7 @@ PROPS = {
         'assumptions': ['the hand-written Model/Cpu.lean mirrors the Rust handlers (checked by the correspondence run on every case); only its dispatch tables are regenerated from source'],
     },
     'C04': {
-        'lean': ['H8.Props.C04', 'H8.Props.C04H'],
+        'lean': ['H8.Props.C04', 'H8.Props.C04H', 'H8.Props.C04M'],
         'gen': ['consts', 'buscost', 'busmap', 'dispatch'],
         'runs': [{'mode': 'step', 'shards': 16}],
         'rule': 'single-step cases on the real Cpu (fetch+exec through the verif hook) from a tagged background memory (every byte = hash of its address) with the full register file, CCR, PC, cost and the complete delta of all five stores compared: per form of spec/isa.tbl every combination of the register fields (x2), all 256 initial CCR values, every value of immediate/bit/condition fields, seeded random instances with boundary-value register files and operand addresses at both ends of on-chip RAM, DRAM and the vector area; the 256 x 8 x 2 (operand byte, bit number, C) cube for every op x location (quick: half of it), bit-number registers holding 0-255. distinct non-trivial = distinct (form, first instruction bytes, resulting register file) triples of in-domain cases.',
